@@ -59,6 +59,7 @@ func stripSpaces(s string) string { return strings.ReplaceAll(s, " ", "") }
 
 // hmapClassifier abstracts statements of one method into events.
 type hmapClassifier struct {
+	resolveCall func(call *ast.CallExpr) ast.Expr // value of a same-receiver selector helper under the mode being specialised
 	fi   *core.FuncInfo
 	info *types.Info
 	recv string
@@ -330,6 +331,14 @@ func isNextField(n string) bool { return n == "next" || n == "hash_next" || n ==
 // keySource: the expression a removal key derives from (following one local definition).
 func (c *hmapClassifier) keySource(e ast.Expr) string {
 	e = ast.Unparen(e)
+	// this.endEntry(front).key: the entry a helper selects once the mode is known
+	if sel, ok := e.(*ast.SelectorExpr); ok && c.resolveCall != nil {
+		if call, ok := ast.Unparen(sel.X).(*ast.CallExpr); ok {
+			if r := c.resolveCall(call); r != nil {
+				return c.norm(r) + "." + sel.Sel.Name
+			}
+		}
+	}
 	if id, ok := e.(*ast.Ident); ok {
 		obj := c.info.ObjectOf(id)
 		var def ast.Expr
@@ -438,6 +447,27 @@ func hasCmp(pa paths.Path, l, op, r string, val bool) bool {
 }
 
 func (c *hmapClassifier) condEvent(cond ast.Expr, val bool) *paths.Event {
+	// this.endEntry(front) == e reads as header.link_next == e once the mode fixes `front`
+	if be, ok := ast.Unparen(cond).(*ast.BinaryExpr); ok && c.resolveCall != nil {
+		x, y := be.X, be.Y
+		if call, ok := ast.Unparen(x).(*ast.CallExpr); ok {
+			if r := c.resolveCall(call); r != nil {
+				x = r
+			}
+		}
+		if call, ok := ast.Unparen(y).(*ast.CallExpr); ok {
+			if r := c.resolveCall(call); r != nil {
+				y = r
+			}
+		}
+		if x != be.X || y != be.Y {
+			nb := &ast.BinaryExpr{X: x, OpPos: be.OpPos, Op: be.Op, Y: y}
+			if tv, ok := c.info.Types[be]; ok {
+				c.info.Types[nb] = tv
+			}
+			cond = nb
+		}
+	}
 	s := c.norm(cond)
 	if ns, nv, ok := c.normCmp(cond, val); ok {
 		s, val = ns, nv
@@ -494,6 +524,12 @@ func modeParam(fi *core.FuncInfo) types.Object {
 }
 
 func (h *hmapType) enumerate(fi *core.FuncInfo, cl *hmapClassifier, mode string) ([]paths.Path, bool) {
+	return h.enumerateWith(fi, cl, mode, nil)
+}
+
+// enumerateWith is enumerate with some (boolean) parameters of fi fixed to constants: a helper that
+// takes the end as a flag (moveToEnd(e, front)) is judged once per value of the flag.
+func (h *hmapType) enumerateWith(fi *core.FuncInfo, cl *hmapClassifier, mode string, preset map[types.Object]constant.Value) ([]paths.Path, bool) {
 	mp := modeParam(fi)
 	info := fi.Pkg.TypesInfo
 	modeObjs := map[types.Object]bool{}
@@ -509,7 +545,8 @@ func (h *hmapType) enumerate(fi *core.FuncInfo, cl *hmapClassifier, mode string)
 	// `evictFor(m)` / `growIfNeeded()` is judged as if it were written in place
 	primitive := map[string]bool{"chain": true, "unchain": true, "remove": true, "rehash": true, "clear": true, "put": true, "add": true, "_add": true,
 		"overflowed": true, "hash": true, "Size": true, "IsEmpty": true, "IsFull": true}
-	inlineBody := func(call *ast.CallExpr) *ast.BlockStmt {
+	var inlineBody func(call *ast.CallExpr) *ast.BlockStmt
+	inlineBody = func(call *ast.CallExpr) *ast.BlockStmt {
 		sel, ok := call.Fun.(*ast.SelectorExpr)
 		if !ok || primitive[sel.Sel.Name] {
 			return nil
@@ -547,14 +584,307 @@ func (h *hmapType) enumerate(fi *core.FuncInfo, cl *hmapClassifier, mode string)
 		return cfi.Decl.Body
 	}
 	exp := newInliner(h.p, fi, func(fn *types.Func) bool { return true }) // only boolean-local expansion is used here
+	// values that are constants once the mode is fixed: the mode itself, fields of a policy record
+	// looked up by the mode (plan := putPlans[m]; plan.front), the comma-ok of that look-up, and helper
+	// parameters bound to such values at the call being followed
+	constVals := map[types.Object]constant.Value{}
+	for k, v := range preset {
+		constVals[k] = v
+	}
+	var modeConst func(e ast.Expr, depth int) constant.Value
+	findDef := func(obj types.Object) (*ast.AssignStmt, int) {
+		var found *ast.AssignStmt
+		idx := -1
+		for _, b := range append([]*ast.BlockStmt{fi.Decl.Body}, cl.bodies...) {
+			ast.Inspect(b, func(n ast.Node) bool {
+				as, ok := n.(*ast.AssignStmt)
+				if !ok || as.Tok != token.DEFINE {
+					return true
+				}
+				for i, l := range as.Lhs {
+					if id, ok := l.(*ast.Ident); ok && info.ObjectOf(id) == obj {
+						found, idx = as, i
+					}
+				}
+				return true
+			})
+		}
+		return found, idx
+	}
+	tableEntry := func(ix *ast.IndexExpr, depth int) (ast.Expr, *types.Info, bool, bool) {
+		// (entry, its info, found, decided)
+		tid, ok := ast.Unparen(ix.X).(*ast.Ident)
+		if !ok {
+			return nil, nil, false, false
+		}
+		tv, _ := info.ObjectOf(tid).(*types.Var)
+		if tv == nil || tv.Pkg() == nil || tv.Parent() != tv.Pkg().Scope() {
+			return nil, nil, false, false
+		}
+		key := modeConst(ix.Index, depth+1)
+		if key == nil {
+			return nil, nil, false, false
+		}
+		lit, linfo := (&strEval{p: h.p, info: info}).pkgVarInit(tv)
+		if lit == nil {
+			return nil, nil, false, false
+		}
+		for pos, el := range lit.Elts {
+			var k constant.Value = constant.MakeInt64(int64(pos))
+			val := el
+			if kv, ok := el.(*ast.KeyValueExpr); ok {
+				ktv, ok := linfo.Types[kv.Key]
+				if !ok || ktv.Value == nil {
+					return nil, nil, false, false
+				}
+				k, val = ktv.Value, kv.Value
+			}
+			if k.Kind() == key.Kind() && constant.Compare(k, token.EQL, key) {
+				return val, linfo, true, true
+			}
+		}
+		return nil, linfo, false, true
+	}
+	modeConst = func(e ast.Expr, depth int) constant.Value {
+		if (mode == "" && len(preset) == 0) || depth > 4 {
+			return nil
+		}
+		e = ast.Unparen(e)
+		if tv, ok := info.Types[e]; ok && tv.Value != nil {
+			return tv.Value
+		}
+		switch v := e.(type) {
+		case *ast.Ident:
+			obj := info.ObjectOf(v)
+			if modeObjs[obj] {
+				if mode == "" {
+					return nil
+				}
+				return h.modes[mode]
+			}
+			if c, ok := constVals[obj]; ok {
+				return c
+			}
+			if as, i := findDef(obj); as != nil && len(as.Rhs) == 1 {
+				if ix, ok := ast.Unparen(as.Rhs[0]).(*ast.IndexExpr); ok {
+					entry, linfo, found, decided := tableEntry(ix, depth)
+					if !decided {
+						return nil
+					}
+					if len(as.Lhs) == 2 && i == 1 {
+						return constant.MakeBool(found)
+					}
+					if i == 0 && found {
+						if tv, ok := linfo.Types[entry]; ok && tv.Value != nil {
+							return tv.Value
+						}
+					}
+				}
+			}
+		case *ast.UnaryExpr:
+			if v.Op == token.NOT {
+				if c := modeConst(v.X, depth+1); c != nil && c.Kind() == constant.Bool {
+					return constant.MakeBool(!constant.BoolVal(c))
+				}
+			}
+		case *ast.SelectorExpr:
+			// plan.front with plan := table[mode]
+			id, ok := ast.Unparen(v.X).(*ast.Ident)
+			if !ok {
+				return nil
+			}
+			as, i := findDef(info.ObjectOf(id))
+			if as == nil || i != 0 || len(as.Rhs) != 1 {
+				return nil
+			}
+			ix, ok := ast.Unparen(as.Rhs[0]).(*ast.IndexExpr)
+			if !ok {
+				return nil
+			}
+			entry, linfo, found, decided := tableEntry(ix, depth)
+			if !decided {
+				return nil
+			}
+			st, _ := info.TypeOf(v.X).Underlying().(*types.Struct)
+			if st == nil {
+				return nil
+			}
+			if !found {
+				// the zero record
+				for k := 0; k < st.NumFields(); k++ {
+					if st.Field(k).Name() == v.Sel.Name {
+						if b, ok := st.Field(k).Type().Underlying().(*types.Basic); ok {
+							switch {
+							case b.Info()&types.IsBoolean != 0:
+								return constant.MakeBool(false)
+							case b.Info()&types.IsInteger != 0:
+								return constant.MakeInt64(0)
+							}
+						}
+					}
+				}
+				return nil
+			}
+			cl2, ok := ast.Unparen(entry).(*ast.CompositeLit)
+			if !ok {
+				return nil
+			}
+			for k, fe := range cl2.Elts {
+				name, val := "", fe
+				if kv, ok := fe.(*ast.KeyValueExpr); ok {
+					if kid, ok := kv.Key.(*ast.Ident); ok {
+						name, val = kid.Name, kv.Value
+					}
+				} else if k < st.NumFields() {
+					name = st.Field(k).Name()
+				}
+				if name == v.Sel.Name {
+					if tv, ok := linfo.Types[val]; ok && tv.Value != nil {
+						return tv.Value
+					}
+				}
+			}
+			// field not mentioned in the literal: zero
+			for k := 0; k < st.NumFields(); k++ {
+				if st.Field(k).Name() == v.Sel.Name {
+					if b, ok := st.Field(k).Type().Underlying().(*types.Basic); ok && b.Info()&types.IsBoolean != 0 {
+						return constant.MakeBool(false)
+					}
+				}
+			}
+		}
+		return nil
+	}
+	cl.resolveCall = func(call *ast.CallExpr) ast.Expr {
+		if mode == "" && len(preset) == 0 {
+			return nil
+		}
+		sel, ok := call.Fun.(*ast.SelectorExpr)
+		if !ok {
+			return nil
+		}
+		if id, ok := ast.Unparen(sel.X).(*ast.Ident); !ok || id.Name != cl.recv {
+			return nil
+		}
+		fn, _ := info.Uses[sel.Sel].(*types.Func)
+		if fn == nil || fn.Exported() {
+			return nil
+		}
+		cfi := h.p.FuncOf(fn)
+		if cfi == nil || cfi.Decl.Body == nil || cfi.Pkg != fi.Pkg || recvName(cfi) != cl.recv {
+			return nil
+		}
+		saved := map[types.Object]constant.Value{}
+		i := 0
+		for _, f := range cfi.Decl.Type.Params.List {
+			for _, n := range f.Names {
+				obj := info.Defs[n]
+				if old, ok := constVals[obj]; ok {
+					saved[obj] = old
+				}
+				if i < len(call.Args) {
+					if c := modeConst(call.Args[i], 0); c != nil {
+						constVals[obj] = c
+					} else {
+						delete(constVals, obj)
+					}
+				}
+				i++
+			}
+		}
+		defer func() {
+			i := 0
+			for _, f := range cfi.Decl.Type.Params.List {
+				for _, n := range f.Names {
+					obj := info.Defs[n]
+					if old, ok := saved[obj]; ok {
+						constVals[obj] = old
+					} else {
+						delete(constVals, obj)
+					}
+					i++
+				}
+			}
+		}()
+		var walk func(list []ast.Stmt) (ast.Expr, bool)
+		walk = func(list []ast.Stmt) (ast.Expr, bool) {
+			for _, st := range list {
+				switch v := st.(type) {
+				case *ast.ReturnStmt:
+					if len(v.Results) == 1 {
+						return v.Results[0], true
+					}
+					return nil, true
+				case *ast.IfStmt:
+					c := modeConst(v.Cond, 0)
+					if c == nil || c.Kind() != constant.Bool || v.Init != nil {
+						return nil, true
+					}
+					if constant.BoolVal(c) {
+						if r, done := walk(v.Body.List); done {
+							return r, true
+						}
+					} else if v.Else != nil {
+						var body []ast.Stmt
+						switch el := v.Else.(type) {
+						case *ast.BlockStmt:
+							body = el.List
+						default:
+							body = []ast.Stmt{el}
+						}
+						if r, done := walk(body); done {
+							return r, true
+						}
+					}
+				default:
+					return nil, true
+				}
+			}
+			return nil, false
+		}
+		r, _ := walk(cfi.Decl.Body.List)
+		return r
+	}
+	inlineBody0 := inlineBody
+	inlineBody = func(call *ast.CallExpr) *ast.BlockStmt {
+		body := inlineBody0(call)
+		if body == nil || (mode == "" && len(preset) == 0) {
+			return body
+		}
+		if sel, ok := call.Fun.(*ast.SelectorExpr); ok {
+			if fn, _ := info.Uses[sel.Sel].(*types.Func); fn != nil {
+				if cfi := h.p.FuncOf(fn); cfi != nil {
+					i := 0
+					for _, f := range cfi.Decl.Type.Params.List {
+						for _, n := range f.Names {
+							if i < len(call.Args) && !isMode(call.Args[i]) {
+								if c := modeConst(call.Args[i], 0); c != nil {
+									constVals[info.Defs[n]] = c
+								} else {
+									delete(constVals, info.Defs[n])
+								}
+							}
+							i++
+						}
+					}
+				}
+			}
+		}
+		return body
+	}
 	cfg := paths.Config{
 		Info:     info,
-		Inline:   inlineBody,
+		Inline:   func(call *ast.CallExpr) *ast.BlockStmt { return inlineBody(call) },
 		Expand:   exp.Expand,
-		MaxInline: 2,
+		MaxInline: 3,
 		Classify: cl.classify,
 		Cond:     cl.condEvent,
 		Fold: func(c ast.Expr) (bool, bool) {
+			if mode != "" || len(preset) > 0 {
+				if cv := modeConst(c, 0); cv != nil && cv.Kind() == constant.Bool {
+					return true, constant.BoolVal(cv)
+				}
+			}
 			be, ok := ast.Unparen(c).(*ast.BinaryExpr)
 			if !ok || mode == "" || (be.Op != token.EQL && be.Op != token.NEQ) {
 				return false, false
@@ -1052,7 +1382,32 @@ func (h *hmapType) checkMoves() {
 			continue // insertion helpers are judged per mode by the update rule
 		}
 		cl := newHmapClassifier(fi)
-		ps, over := h.enumerate(fi, cl, "")
+		// boolean flags of an unexported helper (moveToEnd(e, front)) are fixed to each of their values
+		var flags []types.Object
+		if !fi.Obj.Exported() && fi.Decl.Type.Params != nil {
+			for _, f := range fi.Decl.Type.Params.List {
+				for _, n := range f.Names {
+					if o := fi.Pkg.TypesInfo.Defs[n]; o != nil && isBoolType(o.Type()) {
+						flags = append(flags, o)
+					}
+				}
+			}
+		}
+		var ps []paths.Path
+		over := false
+		if len(flags) > 0 && len(flags) <= 2 {
+			for mask := 0; mask < 1<<len(flags); mask++ {
+				preset := map[types.Object]constant.Value{}
+				for i, o := range flags {
+					preset[o] = constant.MakeBool(mask&(1<<i) != 0)
+				}
+				p1, o1 := h.enumerateWith(fi, newHmapClassifier(fi), "", preset)
+				ps = append(ps, p1...)
+				over = over || o1
+			}
+		} else {
+			ps, over = h.enumerate(fi, cl, "")
+		}
 		if over {
 			continue
 		}
